@@ -3,36 +3,32 @@
 package registry
 
 import (
-	"context"
+	"sync"
 	"sync/atomic"
 	"time"
 
 	"github.com/thushan/olla/internal/core/domain"
-	"github.com/thushan/olla/internal/core/ports"
+	"github.com/thushan/olla/internal/verifhook"
 )
 
 // VerifC10Probe lets the C10 harness (which lives in another package) learn when the
 // asynchronous unification goroutines started by RegisterModels have finished.  It does not
-// change what the registry does: the real unifier is called through a counting delegate.
+// change what the registry does.
 //
-// Every successful UnifiedMemoryModelRegistry.RegisterModels starts exactly one goroutine
-// that takes unificationMutex, calls unifier.UnifyModels once, merges, and releases the
-// mutex.  So "n registrations merged" <=> the delegate saw n UnifyModels calls and the mutex
-// could be taken afterwards.
+// Every successful UnifiedMemoryModelRegistry.RegisterModels starts exactly one goroutine running
+// unifyModelsAsync; that function passes the instrumentation point "registry.unified" (key:
+// endpoint URL) when it returns, after it released unificationMutex.  So "n registrations merged"
+// <=> the point was passed n times for this registry's endpoint URLs.  Scenarios that run at the
+// same time use disjoint endpoint URLs (one rig each), so the URL identifies the registry.
 type VerifC10Probe struct {
-	r     *UnifiedMemoryModelRegistry
-	calls atomic.Int64
+	r    *UnifiedMemoryModelRegistry
+	done atomic.Int64
 }
 
-type verifC10Unifier struct {
-	ports.ModelUnifier
-	p *VerifC10Probe
-}
-
-func (u *verifC10Unifier) UnifyModels(ctx context.Context, models []*domain.ModelInfo, ep *domain.Endpoint) ([]*domain.UnifiedModel, error) {
-	u.p.calls.Add(1)
-	return u.ModelUnifier.UnifyModels(ctx, models, ep)
-}
+var (
+	verifC10Probes sync.Map // endpoint URL -> *VerifC10Probe
+	verifC10Once   sync.Once
+)
 
 // VerifC10Instrument returns a probe for reg if it is the unified registry, nil otherwise.
 func VerifC10Instrument(reg domain.ModelRegistry) *VerifC10Probe {
@@ -40,23 +36,35 @@ func VerifC10Instrument(reg domain.ModelRegistry) *VerifC10Probe {
 	if !ok {
 		return nil
 	}
-	p := &VerifC10Probe{r: r}
-	r.unifier = &verifC10Unifier{ModelUnifier: r.unifier, p: p}
-	return p
+	verifC10Once.Do(func() {
+		verifhook.Set(func(name, key string) {
+			if name != "registry.unified" {
+				return
+			}
+			if p, ok := verifC10Probes.Load(key); ok {
+				p.(*VerifC10Probe).done.Add(1)
+			}
+		})
+	})
+	return &VerifC10Probe{r: r}
+}
+
+// Watch attributes unifications of endpointURL to this probe from now on.
+func (p *VerifC10Probe) Watch(endpointURL string) {
+	if p != nil {
+		verifC10Probes.Store(endpointURL, p)
+	}
 }
 
 // WaitMerged blocks until n unification goroutines have run to completion (or the timeout
 // expires: false).
 func (p *VerifC10Probe) WaitMerged(n int64, timeout time.Duration) bool {
 	deadline := time.Now().Add(timeout)
-	for p.calls.Load() < n {
+	for p.done.Load() < n {
 		if time.Now().After(deadline) {
 			return false
 		}
 		time.Sleep(20 * time.Microsecond)
 	}
-	// the goroutine that made the n-th call holds the mutex until it is done
-	p.r.unificationMutex.Lock()
-	p.r.unificationMutex.Unlock() //nolint:staticcheck
-	return p.calls.Load() == n
+	return p.done.Load() == n
 }
